@@ -404,6 +404,42 @@ def run():
         elif len(ck.coverage["samples"]) < 10 and i % 211 == 0:
             ck.sample({"prql": src, "sql": a["ok"], "sqlite_value": got})
 
+    # ------------------------------------------------------------ 3b. float literals: the text translate_literal emits (Rust {:?}) vs Model/FloatFmt.v
+    #      emit_float_rust on the DECIMAL value (m, e) the lexer model gives the spelling; compared on the class in_class
+    #      (<= 15 significant digits, normal range) and on the overflow class (inf, F14); outside: counted only
+    if model_lit is not None:
+        fl = []
+        for i, (src, pv, kind) in enumerate(lits):
+            m = model_lit[i]
+            if kind.startswith("number") and m != "None" and isinstance(m, tuple) and m[0] == "Some" and m[1][0] == 2 and m[1][3] == []:
+                tag, payload, (sg, mag), rest = m[1]
+                fl.append((src, int(s_of(payload)), bool(sg), mag))
+        fcomp = harness("compile", [{"src": "from t | select {v = %s}" % f[0], "target": "sql.generic"} for f in fl])
+        try:
+            B = 60
+            fmodel = [x for v in coq_eval(HEADER.replace("Model.Literal.", "Model.Literal Model.FloatFmt."),
+                                          ["[%s]" % "; ".join("emit_float_view %d %s %d" % (m_, "true" if sg_ else "false", mag_) for (_, m_, sg_, mag_) in fl[i:i + B])
+                                           for i in range(0, len(fl), B)]) for x in v]
+        except RuntimeError as ex:
+            fmodel = None
+            ck.coverage["model_eval_error_float"] = str(ex)[-600:]
+        if fmodel is not None:
+            for (src, m_, sg_, mag_), a, (cls, txt) in zip(fl, fcomp, fmodel):
+                sql = a.get("ok", "")
+                got = sql[len("SELECT "):-len(" AS v FROM t")] if sql.startswith("SELECT ") and sql.endswith(" AS v FROM t") else None
+                mt = s_of(txt)
+                ck.count("float-text", src)
+                if mt == "inf":
+                    ck.stat("float-text", "overflow")
+                    if got != "inf":
+                        ck.violation("float literal %s: the model says it overflows to inf, prqlc emits %r" % (src, got), {"kind": "float-text", "src": src, "model": mt, "impl": got})
+                elif cls:
+                    ck.stat("float-text", "in-class")
+                    if got != mt:
+                        ck.violation("float literal %s: prqlc emits %r, the model of Rust's {:?} layout says %r" % (src, got, mt), {"kind": "float-text", "src": src, "model": mt, "impl": got})
+                else:
+                    ck.stat("float-text", "outside-class-same" if got == mt else "outside-class-differs")
+
     # ------------------------------------------------------------ 4. per-dialect token structure of the compiled statement
     tprogs = [p for p in progs if p[3]["skeleton"] == "select" and p[1] == "sql.sqlite" and p[3]["kind"].startswith("string")]
     tprogs = tprogs[:ck.n(250, 2500)]
